@@ -191,7 +191,7 @@ def gen_default(r, t, p_none=0.5):
     if b == "float":
         return ["i", r.choice([0, 3, -7])] if r.random() < 0.15 else ["f", gen_float_repr(r)]
     if b == "str":
-        return ["s", r.choice(["mnist", "foo", "bar baz", "a_b", "~/data", "", "x|y", 'q"uote', "naïve ✓", "line\nbreak", "None.", "0", "alpha"])]
+        return ["s", r.choice(["mnist", "foo", "bar baz", "a_b", "~/data", "", "x|y", 'q"uote', "naïve ✓", "line\nbreak", "None.", "0", "alpha", '"world"', "'x'", "'a\""])]  # incl. values that begin and end with a quote character
     if b == "bool":
         return ["b", r.random() < 0.5]
     return None  # dict / list: no typed scalar default
